@@ -67,9 +67,11 @@ def boot(quiet_warnings=True):
     if quiet_warnings:
         warnings.simplefilter("ignore")
     import dclab  # noqa: F401
-    got = pathlib.Path(dclab.__file__).resolve().parent.parent
-    if got != REPO:
-        raise RuntimeError(f"dclab imported from {got}, expected {REPO}")
+    # compare unresolved paths as well: the sanitizer overlay is a tree of symlinks
+    got = pathlib.Path(os.path.abspath(dclab.__file__)).parent.parent
+    want = pathlib.Path(os.path.abspath(os.environ.get("VERIF_REPO", "/repo")))
+    if got != want and got.resolve() != REPO:
+        raise RuntimeError(f"dclab imported from {got}, expected {want}")
 
 
 def scratch():
